@@ -210,7 +210,10 @@ class PathState:
                 elif x[0] == 'via' and (x[1].endswith('::Try>::branch') or x[1].endswith('::clone') or x[1].endswith('::borrow') or x[1].endswith('::as_ref') or x[1].endswith('::as_mut') or x[1].endswith('::deref') or x[1].endswith('::deref_mut')):
                     x = x[2]
                 else:
-                    break
+                    y = peel_payload(x)
+                    if y is x:
+                        break
+                    x = y
             if x[0] == 'call' and x[1].endswith('::from_residual'):
                 return 1        # the value built from a residual is Err(..) / None-like: discriminant 1 for Result and for ControlFlow::Break
             if x[0] == 'agg' and len(x) > 5 and x[5] is not None:
@@ -364,6 +367,34 @@ def root_mut_local(e):
             else:
                 return None
     return None
+
+
+_COMPAT = {'Continue': ('Ok', 'Some', 'Continue'), 'Break': ('Err', 'None', 'Break'), 'Ok': ('Ok',), 'Err': ('Err',), 'Some': ('Some',)}
+
+
+def peel_payload(e):
+    """`(X as V).i` where X is (a `?`-branch / unwrap / reference of) an aggregate built on the path with variant V: the i-th operand of that
+    aggregate.  Unlike strip(), which identifies a payload with its container, this yields the payload itself.  Returns e unchanged otherwise."""
+    if not isinstance(e, tuple) or not e:
+        return e
+    if e[0] == 'via' and (e[1].endswith('::unwrap') or e[1].endswith('::expect')):
+        x = e[2]
+        while x[0] in ('ref', 'deref', 'refm') or (x[0] == 'via' and x[1].endswith('::Try>::branch')):
+            x = x[1] if x[0] != 'via' else x[2]
+        if x[0] == 'agg' and x[2] in ('Some', 'Ok') and len(x[3]) == 1:
+            return x[3][0]
+        return e
+    if e[0] == 'field' and e[1][0] == 'variant' and e[2].isdigit():
+        x = e[1][1]
+        while x[0] in ('ref', 'deref', 'refm') or (x[0] == 'via' and x[1].endswith('::Try>::branch')):
+            x = x[1] if x[0] != 'via' else x[2]
+        if x[0] == 'field' or x[0] == 'via':
+            y = peel_payload(x)
+            if y is not x:
+                x = y
+        if x[0] == 'agg' and x[2] in _COMPAT.get(e[1][2], (e[1][2],)) and int(e[2]) < len(x[3]):
+            return x[3][int(e[2])]
+    return e
 
 
 def strip(e):
